@@ -211,14 +211,15 @@ def parse_query(line: str):
 
 # ------------------------------------------------------------------------------------------------ real objects
 
-def make_objects(q) -> List[Any]:
-    objs = [(E if o["veq"] else P)(i, o["cls"], {}) for i, o in enumerate(q["objs"])]
+def make_objects(q, classes=None) -> List[Any]:
+    p_cls, e_cls = classes or (P, E)
+    objs = [(e_cls if o["veq"] else p_cls)(i, o["cls"], {}) for i, o in enumerate(q["objs"])]
     for ob, o in zip(objs, q["objs"]):
         fields = {k: real_val(v, objs) for k, v in o["fields"].items()}
         ob._fields = fields
         for k, v in fields.items():
             if not k.startswith("m_"):
-                setattr(ob, k, v)
+                object.__setattr__(ob, k, v)
     return objs
 
 
@@ -260,14 +261,14 @@ def show_row(r) -> str:
     return "(" + " ".join(show_val(v) for v in r) + ")"
 
 
-def build_real(q, one_shot: bool = False, wrap_domain=None):
+def build_real(q, one_shot: bool = False, wrap_domain=None, classes=None):
     """Build the real EQL query. Returns (query_object, variables dict, objects)."""
     from krrood.entity_query_language import symbolic as S
     from krrood.entity_query_language.entity import (let, entity, set_of, and_, or_, not_, contains, exists, for_all,
                                                       flatten)
     from krrood.entity_query_language.quantify_entity import an
 
-    objs = make_objects(q)
+    objs = make_objects(q, classes)
     V = {}
     for n, d in q["doms"].items():
         vals = [real_val(v, objs) for v in d]
